@@ -283,10 +283,6 @@ fn exp_features(e: &Exp, o: &mut Outcome) {
     }
 }
 
-pub struct CaseRun {
-    pub out: Outcome,
-}
-
 pub fn run_gen(case: &GenCase, replay: bool) -> Outcome {
     let trace = std::env::var("DV_TRACE").is_ok();
     let mut o = Outcome::default();
